@@ -1,5 +1,6 @@
 import QuantemModel.Core.Proto
 import QuantemModel.Model.Dataset
+import QuantemModel.Model.DatasetHeap
 /- JSON codec and protocol step of the Dataset state machine (shared by the C03 and C06 drivers). -/
 open Lean QuantemModel QuantemModel.Proto QuantemModel.Nd QuantemModel.Dataset
 
@@ -41,8 +42,8 @@ def clsToStr : DsClass → String
   | .base => "Dataset" | .d2 => "Dataset2d" | .d3 => "Dataset3d" | .d4 => "Dataset4d"
   | .d4stem => "Dataset4dstem"
 def kindOfStr : String → Except String Kind
-  | "int" => pure .int | "float" => pure .float | "complex" => pure .complex | s => throw s!"kind {s}"
-def kindToStr : Kind → String | .int => "int" | .float => "float" | .complex => "complex"
+  | "bool" => pure .bool | "int" => pure .int | "float" => pure .float | "complex" => pure .complex | s => throw s!"kind {s}"
+def kindToStr : Kind → String | .bool => "bool" | .int => "int" | .float => "float" | .complex => "complex"
 
 def errName : Err → String
   | .value => "ValueError" | .type => "TypeError" | .index => "IndexError"
@@ -182,10 +183,32 @@ def opOfJson (j : Json) : Except String Op := do
 
 def stJson (st : St) : Json := match st.cur with | none => Json.null | some d => dsToJson d
 
+def hopOfJson (j : Json) : Except String DatasetHeap.HOp := do
+  let a ← j.getArr?
+  let k ← (a[0]!).getStr?
+  let i := ((a[1]?.getD (Json.num 0)).getNat?).toOption.getD 0
+  match k with
+  | "new" => pure .new | "copy" => pure (.copy i) | "padIp" => pure (.padIp i) | "padCp" => pure (.padCp i)
+  | "cropIp" => pure (.cropIp i) | "cropCp" => pure (.cropCp i) | "binIp" => pure (.binIp i)
+  | "binCp" => pure (.binCp i) | "resampleIp" => pure (.resampleIp i) | "resampleCp" => pure (.resampleCp i)
+  | "getitemView" => pure (.getitemView i) | "getitemCopy" => pure (.getitemCopy i) | "derived" => pure (.derived i)
+  | "setOrigin" => pure (.setOrigin i) | "setSampling" => pure (.setSampling i) | "setArray" => pure (.setArray i)
+  | "writeOrigin" => pure (.writeOrigin i 1) | "writeSampling" => pure (.writeSampling i 1)
+  | "writeArray" => pure (.writeArray i 1)
+  | _ => throw s!"heap op {k}"
+
+def boolMatrix (m : List (List Bool)) : Json :=
+  Json.arr (m.map fun r => Json.arr (r.map Json.bool).toArray).toArray
+
 def step (st : St) (j : Json) : St × Json :=
   match (do
     let op ← strField j "op"
-    if op == "new" then
+    if op == "heap" then
+      -- reference bookkeeping of a whole history: which objects hold the same buffer / calibration cells
+      let ops ← (← arrField j "ops").toList.mapM hopOfJson
+      let s := DatasetHeap.run DatasetHeap.init ops
+      pure (st, Json.mkObj [("buf", boolMatrix (DatasetHeap.shareMatrix s)), ("cal", boolMatrix (DatasetHeap.calShare s))])
+    else if op == "new" then
       let (sh, dat, k) ← arrayOfJson (← field j "array")
       let cls ← clsOfStr (← strField j "cls")
       let o ← ndinfoOfJson (fieldD j "origin" Json.null)
